@@ -27,8 +27,9 @@ SortExpect(ts) == [has_bad |-> \E k \in 1..Len(ts) : ts[k] \in SortBad, entries 
 
 \* ---------------- server list strings
 CsvToks == {"c_v4", "c_v4p", "c_v6", "c_v6p", "c_v6bare", "c_uri", "c_uri6", "c_ll", "c_dup", "c_empty",
-            "c_badport", "c_badaddr", "c_badbr", "c_tls", "c_bin", "c_long"}
-CsvBad  == {"c_badport", "c_badaddr", "c_badbr", "c_tls", "c_bin", "c_long"}
+            "c_badport", "c_badaddr", "c_badbr", "c_tls", "c_bin", "c_long", "c_badscope"}
+\* c_badscope: link-local entry whose interface is unknown / over-long (classic and dns:// form): an error or ignored
+CsvBad  == {"c_badport", "c_badaddr", "c_badbr", "c_tls", "c_bin", "c_long", "c_badscope"}
 CsvDesc(t) == CASE t = "c_v4" -> Srv("10.0.0.1", 0, 0, "")      [] t = "c_v4p" -> Srv("10.0.0.2", 54, 54, "")
                 [] t = "c_v6" -> Srv("2001:db8::1", 0, 0, "")   [] t = "c_v6p" -> Srv("2001:db8::2", 54, 54, "")
                 [] t = "c_v6bare" -> Srv("2001:db8::3", 0, 0, "")
